@@ -8,5 +8,5 @@ INIT Init
 NEXT Next
 VIEW View
 ACTION_CONSTRAINT Emit
-INVARIANTS TypeOK AllOrNothing FailureIsReported NoDocumentAfterFailure AbortedSendsNothing UntouchedWhileRendering PooledBuffersAreEmpty StreamedAsDocumented
+INVARIANTS TypeOK AllOrNothing StreamedOnlyIfConfigured FailureIsReported NoDocumentAfterFailure AbortedSendsNothing UntouchedWhileRendering PooledBuffersAreEmpty StreamedAsDocumented
 CHECK_DEADLOCK FALSE
